@@ -23,7 +23,72 @@ T_EVAL = [
     "stdlib models: strconv.ParseInt/ParseUint/ParseBool/ParseFloat (coq/Strconv.v), validated against the real functions; regexp is an oracle: a Section variable in the theorems, a finite table of Go's own answers when the model is run",
 ]
 
+T_API = T_EVAL + ["hand-written model of options.go / bexpr.go / filter.go (coq/Api.v); the hook family of coq/ModelApi.v mirrors harness hookFn"]
+
+def P(coq, harness, trusted, explanation, assumptions, reference=None, race=False):
+    d = {"coq": coq, "harness": harness, "trusted": trusted, "explanation": explanation, "assumptions": assumptions}
+    if reference:
+        d["reference"] = reference
+    if race:
+        d["race"] = True
+    return d
+
+MODEL_NOTE = "the theorems are about the Coq model; they reach the Go code through the per-run correspondence (same inputs, compared observables), whose strength is the generator's"
+
 PROPS = {
+    "C01": P("P_C01.v", ["C01"], T_EVAL,
+        "the semantic laws of the documented semantics (selector steps through maps, structs, slices, pointers and interfaces; operators per value class; representation transparency) are theorems about the model; the model is the independent interpreter the implementation is compared with on the product generator, and the same logical document in six Go representations must give one outcome",
+        [MODEL_NOTE, "the single normalising specification c01_model_meets_spec is not proved (extended goal); *interface{} is not treated as a representation of a document (the lookup does not alternate pointer and interface unwrapping)"],
+        reference="the Coq model of the documented semantics (coq/Eval.v), validated operator by operator"),
+    "C02": P("P_C02.v", ["C02"], T_EVAL,
+        "decimal/hex/octal/binary integer literals of every canonical digit list parse to exactly the value they denote up to the int64/uint64 bounds and are range errors beyond (proved over digit lists, integers are Z); equality in the model compares in the value's own class; the float parser is an exact rational -> single correct rounding (validated against strconv incl. the double-rounding witness, not proved against IEEE-754)",
+        [MODEL_NOTE, "nearest-float-ness of parse_float is validated differentially, not proved (c02_float_partial)"],
+        reference="literals rendered from a chosen value: == must be true iff the values are equal"),
+    "C03": P("P_C03.v", ["C03"], T_EVAL,
+        "and/or/not equations over arbitrary leaf semantics: the composite outcome is a function of the operands' outcomes, left to right, with short-circuit; double negation, unreached errors, De Morgan",
+        [MODEL_NOTE]),
+    "C04": P("P_C04.v", ["C04"], T_EVAL,
+        "negated operators are flip_if_ok of the positive ones for every selector, literal, datum and binding stack; the absent-key table is complementary; not(positive) = negative; contains/in build the same tree (grammar actions)",
+        [MODEL_NOTE]),
+    "C05": P("P_C05.v", ["C05"], T_EVAL,
+        "characterisation of the not-present rule (>= 2 parts, parent resolves to reflect kind Map), the table, errors elsewhere, exact substitution of the unknown value per selector, neutrality when every selector resolves",
+        [MODEL_NOTE, "a *map parent does not get the table (interpretation recorded in DESIGN.md section 8)"],
+        reference="the documented absent-key table / the unknown value substituted per selector"),
+    "C06": P("P_C06.v", ["C06"], T_EVAL,
+        "the quantifier loop is the left-to-right fold of the C03 connectives over the element bodies; a value binding is a substitution (eval_subst), hence any/all = the unrolled disjunction/conjunction for lists and string-keyed maps; resolution through the binding stack is lexical scoping",
+        [MODEL_NOTE]),
+    "C07": P("P_C07.v", ["C07"], T_PARSER + T_EVAL,
+        "parser half: every mix of .name/.digits/[\"literal\"] spellings and the JSON-Pointer spelling is read as the same path (declarative semantics of the regenerated table); ~0/~1 unescape inverts escape for all strings; evaluator half: eval depends on a selector only through its path",
+        [MODEL_NOTE, "back-quoted bracket literals and pointer segments the action rejects are covered by the correspondence only"]),
+    "C08": P("P_C08.v", ["C08"], T_API,
+        "non-interference: two data related by visible_eq (equal except below unexported fields and fields tagged - under the tag in force) give equal outcomes for every expression, and equal filter selections; renamed fields resolve only under the tag",
+        [MODEL_NOTE, "hook-free configurations"]),
+    "C09": P("P_C09.v", ["C09"], T_EVAL,
+        "no reflect call of the model is applied to a kind on which it panics (Panic is an explicit outcome): for every well-formed tree and well-typed datum eval never yields Panic, and an error always comes with false; the operator x kind matrix is enumerated exhaustively on the implementation",
+        [MODEL_NOTE, "hook = None in c09_no_panic (a hook must preserve well-typedness)"]),
+    "C12": P("P_C12.v", ["C12"], T_API,
+        "PARTIAL. Logic part proved: programs over shared cells under an arbitrary interleaving - write-free programs leave the store unchanged, return what they return sequentially and never conflict. Runtime part not provable here: that the Go code performs no other shared write and the Go memory model; tied by running 16 goroutines on one shared evaluator/filter under the race detector (first use included), comparing with sequential results and snapshotting the shared tree",
+        ["the race detector only judges the accesses that occur in the run", "Go memory model, scheduler and GC are not modelled"], race=True),
+    "C13": P("P_C13.v", ["C13"], T_API,
+        "PARTIAL. The model's evaluator is stateless: the result after any history equals the fresh result; Expression() is the creation string. That the Go code never writes to the caller's datum is true by construction in a functional model and therefore tied at run time only (serialise before/after every call)",
+        [MODEL_NOTE, "absence of writes to caller memory is observed, not proved"]),
+    "C14": P("P_C14.v", ["C14"], T_API,
+        "map iteration order is an adversarial permutation of the entry list: sort_keys is permutation-invariant, evaluation is invariant under permutation of string-keyed duplicate-free maps anywhere in the datum, filter results are permutation-related; the implementation is called repeatedly under Go's randomised iteration",
+        [MODEL_NOTE, "maps with non-string keys inside evaluated data: order-freeness not proved (they cannot be quantified over)"]),
+    "C16": P("P_C16.v", ["C16"], T_PARSER + T_EVAL,
+        "the rendering relation RF (all layouts, redundant parentheses, precedence, every match operator, quantifiers with four binding forms, selector spellings, quoted/raw/bare/integer literals) is read back by the parser as the tree, for trees of unbounded depth; Unquote(quote_double s) = s and the Parse-level literal fidelity theorem hold for EVERY byte string; not-not folding",
+        [MODEL_NOTE, "zero, negative and fractional numeric literals and raw/bare literals before `in` are covered by the correspondence only"]),
+    "C17": P("P_C17.v", ["C17"], T_API,
+        "Execute on slices, arrays and maps keeps exactly the elements on which evaluate is true, in order, with the stated result type; nil filter identity; first error; non-containers are errors; idempotence; partition",
+        [MODEL_NOTE, "input immutability is observed at run time"],
+        reference="the model's execute (kept = filter is_true) and element-wise coherence with Evaluate"),
+    "C18": P("P_C18.v", ["C18"], T_API,
+        "options fold: distinct kinds commute, last wins, nil ignored, creation options are re-issued on every Evaluate, neutral settings (tag bexpr, budget 0 or >= N, identity hook, unknown value when all selectors resolve) change nothing, the hook's value is what operators see; all subsets and permutations are enumerated exhaustively on the implementation",
+        [MODEL_NOTE]),
+    "C19": P("P_C19.v", ["C19"], T_EVAL,
+        "dump (transcription of the four ExpressionDump methods) equals the rendering of the pre-order (level, text) line list for every tree, indent and level; %q is the validated strconv.Quote model",
+        [MODEL_NOTE, "matches/not matches literals are not shown by ExpressionDump (the property lists equality and membership only)"],
+        reference="the reference renderer (lines + render, proved equal to dump)"),
     "C10": {
         "coq": "P_C10.v", "harness": ["C10"], "trusted": T_PARSER,
         "explanation": "type soundness of the grammar table (accepted => well-formed expression, rejected => non-empty error list) and unconditional termination of the engine on the shipped table, proved for every byte string; tied to the real parser by result shape checks on the implementation and by comparing verdict, tree and step count with the model",
